@@ -28,6 +28,7 @@ ASSUMPTIONS = [
     'list form is used only where the fast path is the documented route '
     '(receiver metadata-free or both functions None, union/union)',
 ]
+ANCHORS = ['Table.merge', 'Table._fast_merge', 'Table._union_id_order', 'Table._intersect_id_order', 'prefer_self']
 REQUIRED = ['wide_universe_cases', 'fast_path_taken', 'general_path_taken', 'path_agreement_checked',
             'md_tap_calls_checked', 'empty_intersection_refused',
             'list_form', 'overlap_partial', 'overlap_disjoint',
